@@ -7,6 +7,7 @@ values and fault pairs are added. Oracle: differential against the real code - t
 which invocation i *returns* repr(value) instead of raising.
 """
 import collections
+import dataclasses
 import inspect
 import itertools
 import os
@@ -118,6 +119,17 @@ class NName(Node):   # registered by qualified name (deferred)
 
 class NSub(NName):   # dispatches through its by-name base
     pass
+
+
+def _default_part():
+    return NT('dflt', [])
+
+
+@dataclasses.dataclass
+class DHolder:
+    """printed by the bundled dataclasses extra; `part` comes from a default_factory and has no __eq__"""
+    part: object = dataclasses.field(default_factory=_default_part)
+    n: int = 0
 
 
 class NKw(Node):     # printer takes the trailing comment through **options
@@ -241,6 +253,7 @@ def setup():
     global P, PP
     P, PP = core.import_package()
     from prettyprinter import register_pretty
+    P.install_extras(include=['dataclasses'], raise_on_error=True)
 
     @register_pretty(NT)
     def prn_tcaware(v, ctx, trailing_comment=None):
@@ -311,7 +324,8 @@ def gen_tree(r, budget, depth=0, pool=None):
         pool[0] += 1
     else:
         # other bundled container printers; 'objkeys' is a dict whose KEYS are harness objects
-        kind = r.choice(['deque', 'odict', 'ns', 'ntuple', 'objkeys', 'ddict', 'chainmap', 'ndict', 'ndict', 'nlist'])
+        kind = r.choice(['deque', 'odict', 'ns', 'ntuple', 'objkeys', 'ddict', 'chainmap', 'ndict', 'ndict', 'nlist',
+                         'dholder', 'dholder'])
         node = [kind, [gen_tree(r, budget, depth + 1, pool) for _ in range(r.randrange(1, 3))]]
         pool[0] += 1
     x = r.random()
@@ -361,6 +375,9 @@ def build(node, env, vis=True):
         v = tuple(build(k, env, _vis(vis, i, limit)) for i, k in enumerate(node[1]))
     elif t == 'dict':
         v = {k: build(x, env, _vis(vis, i, limit)) for i, (k, x) in enumerate(node[1])}
+    elif t == 'dholder':
+        kids = [build(k, env, vis) for k in node[1]]
+        v = DHolder(kids[0], len(kids)) if len(kids) % 2 else DHolder(n=len(kids))
     elif t == 'ndict':
         v = NDict(zeta=1, alpha=2)
         for i, k in enumerate(node[1]):
@@ -664,7 +681,7 @@ def _subtrees(node, path=()):
             yield path, ['obj', node[1], node[2], node[3][:i] + node[3][i + 1:]]
         for i, k in enumerate(node[3]):
             yield from _subtrees(k, path + (3, i))
-    elif t in ('list', 'tuple', 'deque', 'odict', 'ns', 'ntuple', 'objkeys', 'ddict', 'chainmap', 'ndict', 'nlist'):
+    elif t in ('list', 'tuple', 'deque', 'odict', 'ns', 'ntuple', 'objkeys', 'ddict', 'chainmap', 'ndict', 'nlist', 'dholder'):
         for i in range(len(node[1])):
             if t == 'ntuple' and len(node[1]) <= 1:
                 break
@@ -698,7 +715,7 @@ def shrinkers(spec):
             elif t == 'obj':
                 for k in node[3]:
                     yield from walk(k)
-            elif t in ('list', 'tuple', 'deque', 'odict', 'ns', 'ntuple', 'objkeys', 'ddict', 'chainmap', 'ndict', 'nlist'):
+            elif t in ('list', 'tuple', 'deque', 'odict', 'ns', 'ntuple', 'objkeys', 'ddict', 'chainmap', 'ndict', 'nlist', 'dholder'):
                 for k in node[1]:
                     yield from walk(k)
             elif t == 'dict':
